@@ -1086,12 +1086,16 @@ func replayFile(path string) []*history {
 	var h history
 	if json.Unmarshal(b, &h) != nil || len(h.Ops) == 0 {
 		var wrap struct {
-			Replay history `json:"replay"`
+			Replay history   `json:"replay"`
+			Cases  []history `json:"cases"`
 		}
-		if json.Unmarshal(b, &wrap) != nil || len(wrap.Replay.Ops) == 0 {
+		if json.Unmarshal(b, &wrap) != nil || (len(wrap.Replay.Ops) == 0 && len(wrap.Cases) == 0) {
 			vh.Die("replay file %s: no history", path)
 		}
 		h = wrap.Replay
+		if len(h.Ops) == 0 {
+			h = wrap.Cases[0]
+		}
 	}
 	h.ID = 0
 	return []*history{&h}
